@@ -96,14 +96,15 @@ def check_call(sizer, dh, equity, buf, rate, ws, ps):
 
 
 def group(item):
-    """One (equity, buffer, rate, weight vector): all price vectors."""
+    """One (equity, buffer, rate, price vector): every weight vector, in order, on ONE sizer object
+    (a sizer is called again and again with new weights in real use), each call judged on its own."""
     from qstrader.portcon.order_sizer.dollar_weighted import DollarWeightedCashBufferedOrderSizer
-    equity, buf, rate, ws = item
+    equity, buf, rate, ps = item
     dh = PriceStub()
     broker = make_broker(equity, rate, dh)
     sizer = DollarWeightedCashBufferedOrderSizer(broker, 'p', dh, cash_buffer_percentage=float(fw(buf)))
     viols, amb, n, outs, nz = [], 0, 0, set(), 0
-    for ps in itertools.product(ASKS, repeat=len(ws)):
+    for ws in itertools.product(WEIGHTS, repeat=len(ps)):
         f, a, oc = check_call(sizer, dh, equity, buf, rate, ws, ps)
         n += 1
         amb += a
@@ -116,7 +117,7 @@ def group(item):
             break
     return {'viols': viols[:10], 'execs': n, 'evals': n, 'ambiguous': amb, 'nontrivial': nz > 0,
             'outcome': (item, tuple(sorted(outs))), 'counters': {'calls_with_nonzero_target': nz},
-            'sample': {'equity': equity, 'buffer': buf, 'fee_rate': rate, 'weights': list(ws),
+            'sample': {'equity': equity, 'buffer': buf, 'fee_rate': rate, 'asks': list(ps),
                        'distinct_targets': len(outs)}}
 
 
@@ -168,8 +169,8 @@ def items(tier):
         for buf in BUFFERS:
             for rate in RATES:
                 for n in sizes:
-                    for ws in itertools.product(WEIGHTS, repeat=n):
-                        out.append((equity, buf, rate, ws))
+                    for ps in itertools.product(ASKS, repeat=n):
+                        out.append((equity, buf, rate, ps))
     return out
 
 
